@@ -337,10 +337,10 @@ class Run:
                              for f in violations],
                 "how_to_replay": "./check %s --replay <this file>" % self.prop,
             }
-            h = hashlib.sha1(json.dumps(payload, sort_keys=True, ensure_ascii=False).encode()).hexdigest()[:10]
+            h = hashlib.sha1(json.dumps(payload, sort_keys=True, ensure_ascii=False, default=str).encode()).hexdigest()[:10]
             path = os.path.join(REPLAY, "%s-%s.json" % (self.prop, h))
             with open(path, "w", encoding="utf-8") as fh:
-                json.dump(payload, fh, ensure_ascii=False, indent=1)
+                json.dump(payload, fh, ensure_ascii=False, indent=1, default=str)
             tail = "" if with_w else " no-failing-input-found"
             lines.append("VIOLATION property=%s replay=%s%s" % (self.prop, path, tail))
         ev = {
@@ -352,11 +352,11 @@ class Run:
         ev["coverage"]["notes"] = self.notes
         os.makedirs(EVID, exist_ok=True)
         with open(os.path.join(EVID, self.prop + ".json"), "w", encoding="utf-8") as fh:
-            json.dump(ev, fh, ensure_ascii=False, indent=1)
+            json.dump(ev, fh, ensure_ascii=False, indent=1, default=str)
         for f in violations[:8]:
             print("  - [%s] %s" % (f.kind, f.what))
             if f.witness is not None:
-                print("      witness: %s" % json.dumps(f.witness, ensure_ascii=False)[:400])
+                print("      witness: %s" % json.dumps(f.witness, ensure_ascii=False, default=str)[:400])
         for l in lines:
             print(l)
         print("%s %s tier=%s obligations=%d discharged=%d evaluations=%d wall=%.1fs" % (
